@@ -10,6 +10,9 @@ RECURSIVE SrcSeq(_)
 \* overriding SlotSep in a .cfg - line breaks, indentation, comments. None of it belongs to a slot body or to the
 \* component file, so none of it may show in the output (C07).
 SlotSep == ""
+\* how the argument object of a component use is written: single spaces, or (ArgLay <- "tight" in a .cfg) no blank that is
+\* not needed, so that the closing braces of nested objects touch
+ArgLay == "sp"
 RECURSIVE SrcSlots(_)
 SrcSlots(sl) == IF sl = <<>> THEN ""
                 ELSE SlotSep \o (IF sl[1].name = "" THEN "@slot" ELSE "@slot(\"" \o sl[1].name \o "\")") \o SrcSeq(sl[1].body) \o "@end"
@@ -25,7 +28,8 @@ Src(s) ==
     [] s.k = "assign" -> "{{ " \o s.n \o " = " \o Ex(s.e) \o " }}"
     [] s.k = "if" -> "@if(" \o Ex(s.cs[1].c) \o ")" \o SrcSeq(s.cs[1].body) \o SrcAlts(s.cs, 2) \o ElseSrc(s) \o "@end"
     [] s.k = "each" -> "@each(" \o s.var \o " in " \o Ex(s.arr) \o ")" \o SrcSeq(s.body) \o ElseSrc(s) \o "@end"
-    [] s.k = "for" -> "@for(" \o s.init.n \o " = " \o Ex(s.init.e) \o "; " \o Ex(s.cond) \o "; " \o Ex(s.post) \o ")"
+    [] s.k = "for" -> "@for(" \o (IF s.init.k = "noinit" THEN "" ELSE s.init.n \o " = " \o Ex(s.init.e)) \o "; " \o Ex(s.cond) \o "; "
+                          \o (IF s.post.k = "nopost" THEN "" ELSE IF s.post.k = "assign" THEN s.post.n \o " = " \o Ex(s.post.e) ELSE Ex(s.post)) \o ")"
                       \o SrcSeq(s.body) \o ElseSrc(s) \o "@end"
     [] s.k = "break" -> "@break"
     [] s.k = "continue" -> "@continue"
@@ -36,7 +40,7 @@ Src(s) ==
     [] s.k = "insert" -> IF s.form = "block" THEN "@insert(\"" \o s.name \o "\")" \o SrcSeq(s.body) \o "@end"
                          ELSE "@insert(\"" \o s.name \o "\", " \o Ex(s.e) \o ")"
     [] s.k = "slot" -> IF s.name = "" THEN "@slot" ELSE "@slot(\"" \o s.name \o "\")"
-    [] s.k = "comp" -> "@component(\"" \o Written(s.name) \o "\"" \o (IF s.args = <<>> THEN "" ELSE ", " \o Ex(ObjL(s.args))) \o ")"
+    [] s.k = "comp" -> "@component(\"" \o Written(s.name) \o "\"" \o (IF s.args = <<>> THEN "" ELSE ", " \o Source(ObjL(s.args), ArgLay)) \o ")"
                        \o (IF s.slots = <<>> THEN "" ELSE SrcSlots(s.slots) \o SlotSep \o "@end")
 
 =============================================================================
